@@ -3798,9 +3798,12 @@ class BoutMesh(Mesh):
             elif len(self.y_regions_noguards) == 3:
                 # single-null
                 jyseps1_1 = self.y_regions_noguards[0] - 1
-                jyseps2_1 = self.ny // 2
-                ny_inner = self.ny // 2
-                jyseps1_2 = self.ny // 2
+                # No second X-point: jyseps2_1 and jyseps1_2 must be equal and lie in
+                # the core, jyseps1_1 <= jyseps2_1 = jyseps1_2 <= jyseps2_2, whatever the
+                # relative sizes of the legs and the core. Use the middle of the core.
+                jyseps2_1 = jyseps1_1 + self.y_regions_noguards[1] // 2
+                ny_inner = jyseps2_1
+                jyseps1_2 = jyseps2_1
                 jyseps2_2 = sum(self.y_regions_noguards[:2]) - 1
             elif len(self.y_regions_noguards) == 4:
                 # single X-point with all 4 legs ending on walls
